@@ -31,6 +31,7 @@ RULE += '; an earlier complete call of the same wrapper (own outcome script) may
 RULE += '; one exception instance per kind may be raised again and again; the calling task may have absorbed a cancel earlier'
 RULE += '; success values may be exception instances; caught exceptions may have falsy instances'
 RULE += '; empty caught sets; async attempts that themselves take virtual time'
+RULE += '; caught sets listing a class with one of its subclasses; the sync variant called from a coroutine'
 LEVEL_TEXT = (
     "Reference scan of the scripted outcome sequence decides the number of invocations, the returned value / raised "
     "exception object (identity), and the exact list of pauses. Finite configuration space: enumerated completely for "
@@ -61,7 +62,9 @@ DELAYS = [
 ]
 # "tuple_cancel": CancelledError named explicitly in the caught set - documented to be propagated anyway
 # "tuple0" / "set0": an EMPTY caught set (a computed collection that came out empty) - every exception is outside it
-CATCHINGS = [("default", 1), ("class", 1), ("tuple", 1), ("tuple", 2), ("set", 1), ("set", 2), ("tuple_cancel", 1), ("tuple0", 0), ("set0", 0)]
+CATCHINGS = [("default", 1), ("class", 1), ("tuple", 1), ("tuple", 2), ("set", 1), ("set", 2), ("tuple_cancel", 1), ("tuple0", 0), ("set0", 0), ("tuple_sub", 1), ("set_sub", 1)]
+# "tuple_sub" / "set_sub": the caught set lists a class TOGETHER WITH one of its subclasses (LookupError, KeyError): instances of
+# the broad class and of its other subclasses are still inside the caught set
 
 
 class CaughtA(Exception):
@@ -278,6 +281,10 @@ def run_case(case) -> Outcome:
         catching = set(classes_)
     elif case["catching"] == "tuple_cancel":
         catching = (fam[0], asyncio.CancelledError)
+    elif case["catching"] == "tuple_sub":
+        catching = (fam[0], fam[2]) if not case.get("builtin") else (LookupError, KeyError, ValueError, UnicodeError)
+    elif case["catching"] == "set_sub":
+        catching = {fam[0], fam[2]} if not case.get("builtin") else {LookupError, KeyError, ValueError, UnicodeError}
     elif case["catching"] == "tuple0":
         catching = ()
     elif case["catching"] == "set0":
@@ -317,10 +324,22 @@ def run_case(case) -> Outcome:
                     pass
                 end_warm_up()
             t_wall = _time.perf_counter()
-            try:
-                result["v"] = ("ret", wrapped(*args, **kwargs))
-            except BaseException as exc:  # noqa: BLE001 - outcome under observation
-                result["v"] = ("exc", exc)
+
+            def judged_call():
+                try:
+                    result["v"] = ("ret", wrapped(*args, **kwargs))
+                except BaseException as exc:  # noqa: BLE001 - outcome under observation
+                    result["v"] = ("exc", exc)
+
+            if case.get("sync_in_loop"):
+                # the synchronous variant is called from a coroutine (an event loop is running in this thread): same attempts,
+                # same pauses - it is still the blocking helper the caller asked for
+                async def from_coroutine(loop):
+                    judged_call()
+
+                vloop.run(from_coroutine)
+            else:
+                judged_call()
             wall["dt"] = _time.perf_counter() - t_wall
         finally:
             _time.sleep = _REAL_SLEEP
@@ -556,7 +575,7 @@ def strategy(tier):
         kwargs = draw(st.dictionaries(st.sampled_from(["k", "x", "y"]), st.integers(0, 3), max_size=2))
         builtin = draw(st.sampled_from([False, False, True]))
         warm = draw(st.one_of(st.none(), st.none(), st.lists(st.sampled_from(["caught", "caught", "sub", "ok", "uncaught"]), min_size=1, max_size=limit + 1)))
-        return {"builtin": builtin, "warm": warm, "in_scope": draw(st.integers(0, 2)) == 0, "shared_exc": draw(st.integers(0, 3)) == 0, "swallowed_cancel": draw(st.integers(0, 4)) == 0, "falsy_exc": draw(st.integers(0, 3)) == 0, "ok_exc": draw(st.integers(0, 3)) == 0, "dur": draw(st.sampled_from([0, 0, 0.125, 0.5, 3])), **_case(
+        return {"builtin": builtin, "warm": warm, "in_scope": draw(st.integers(0, 2)) == 0, "shared_exc": draw(st.integers(0, 3)) == 0, "swallowed_cancel": draw(st.integers(0, 4)) == 0, "falsy_exc": draw(st.integers(0, 3)) == 0, "ok_exc": draw(st.integers(0, 3)) == 0, "dur": draw(st.sampled_from([0, 0, 0.125, 0.5, 3])), "sync_in_loop": draw(st.booleans()), **_case(
             draw(st.sampled_from(["sync", "async"])),
             draw(st.booleans()) and draw(st.booleans()),
             limit,
